@@ -57,4 +57,6 @@ def run(rep, fb, tier):
     __import__("vf.rules.pyrules", fromlist=["x"]).rule_py_dead_attr(rep)
     __import__("vf.rules.pyrules4", fromlist=["x"]).rule_py_dunder_other(rep)
     __import__("vf.rules.pyrules5", fromlist=["x"]).rule_py_none_after_loop(rep)
+    __import__("vf.rules.pyrules5", fromlist=["x"]).rule_py_default_none_identity(rep)
+    __import__("vf.rules.pyrules5", fromlist=["x"]).rule_py_path_tail(rep)
     rep.units = fb.units
